@@ -302,6 +302,10 @@ fn zero_arg_cells(ctx: &vh::explore::Ctx, stats: &mut Stats) {
     ];
     for (kind, needle) in kinds {
         for via_clone in [false, true] {
+            // without std a mock-induced panic on the original disables its verification (documented)
+            if !via_clone && ctx.variant != "std" {
+                continue;
+            }
             for on_thread in [false, true] {
                 let cell = format!("zero-arg/{kind}/{}/{}", if via_clone { "clone" } else { "original" }, if on_thread { "thread" } else { "caught" });
                 let original = match kind {
